@@ -33,8 +33,8 @@ fn by_src(list: &[(u16, u16)]) -> Vec<Vec<u16>> {
 fn ops_of(prop: &str) -> &'static [u16] {
     match prop {
         "C03" => &[CMP_FF, CMP_FF, CMP_FI, CMP_FI, CMP_F32, CMP_F64, CMP_SAME],
-        "C04" => &[CONV_FF, CONV_FF, CONV_FF, CONV_FI, CONV_FI, CONV_IF, CONV_IF, CONV_BF, FROM_FF, LOSSY_FF],
-        "C05" => &[F32_TO_FIX, F64_TO_FIX, F32_TO_FIX, F64_TO_FIX, FIX_TO_F32, FIX_TO_F64],
+        "C04" => &[CONV_FF, CONV_FF, CONV_FF, CONV_FI, CONV_FI, CONV_IF, CONV_IF, CONV_BF, FROM_FF, LOSSY_FF, FROM_INT, INT_FROM_FIX, INT_LOSSY_FIX, FROM_BOOL],
+        "C05" => &[F32_TO_FIX, F64_TO_FIX, F32_TO_FIX, F64_TO_FIX, FIX_TO_F32, FIX_TO_F64, FLOAT_FROM_FIX],
         _ => &[],
     }
 }
@@ -52,6 +52,23 @@ pub fn layouts(c: &Case) -> (L, L) {
         CONV_FF | CMP_FF | FROM_FF | LOSSY_FF => {
             let (s, d) = pair_of(c.op, c.lay2);
             (L::from_idx(s as usize), L::from_idx(d as usize))
+        }
+        FROM_INT => {
+            let (k, d) = INT_FROM[c.lay2 as usize % INT_FROM.len()];
+            (INTS[k as usize].as_l(), L::from_idx(d as usize))
+        }
+        INT_FROM_FIX => {
+            let (s, k) = FIX_TO_INT_FROM[c.lay2 as usize % FIX_TO_INT_FROM.len()];
+            (L::from_idx(s as usize), INTS[k as usize].as_l())
+        }
+        INT_LOSSY_FIX => {
+            let (s, k) = FIX_TO_INT_LOSSY[c.lay2 as usize % FIX_TO_INT_LOSSY.len()];
+            (L::from_idx(s as usize), INTS[k as usize].as_l())
+        }
+        FROM_BOOL => (L::new(false, 8, 0), L::from_idx(BOOL_FROM[c.lay2 as usize % BOOL_FROM.len()] as usize)),
+        FLOAT_FROM_FIX => {
+            let (s, _) = FLOAT_FROM[c.lay2 as usize % FLOAT_FROM.len()];
+            (L::from_idx(s as usize), L::from_idx(s as usize))
         }
         CONV_FI | CMP_FI => (L::from_idx(c.lay as usize), INTS[c.lay2 as usize].as_l()),
         CONV_IF => (INTS[c.lay2 as usize].as_l(), L::from_idx(c.lay as usize)),
@@ -282,6 +299,30 @@ impl Engine for Conv {
                         }
                     }
                     CONV_BF => c.b = r3 & 1,
+                    FROM_INT => {
+                        c.lay2 = ((r4 >> 3) % INT_FROM.len() as u128) as u16;
+                        let (k, d) = INT_FROM[c.lay2 as usize];
+                        c.lay = d;
+                        c.b = pattern(INTS[k as usize].as_l(), ia);
+                    }
+                    INT_FROM_FIX | INT_LOSSY_FIX => {
+                        let n = if op == INT_FROM_FIX { FIX_TO_INT_FROM.len() } else { FIX_TO_INT_LOSSY.len() };
+                        c.lay2 = ((r4 >> 3) % n as u128) as u16;
+                        let (s, _) = if op == INT_FROM_FIX { FIX_TO_INT_FROM[c.lay2 as usize] } else { FIX_TO_INT_LOSSY[c.lay2 as usize] };
+                        c.lay = s;
+                        c.a = pattern(L::from_idx(s as usize), ia);
+                    }
+                    FROM_BOOL => {
+                        c.lay2 = ((r4 >> 3) % BOOL_FROM.len() as u128) as u16;
+                        c.lay = BOOL_FROM[c.lay2 as usize];
+                        c.b = r3 & 1;
+                    }
+                    FLOAT_FROM_FIX => {
+                        c.lay2 = ((r4 >> 3) % FLOAT_FROM.len() as u128) as u16;
+                        let (s, _) = FLOAT_FROM[c.lay2 as usize];
+                        c.lay = s;
+                        c.a = pattern(L::from_idx(s as usize), ia);
+                    }
                     CMP_SAME => {
                         let l = L::from_idx(lay as usize);
                         c.a = pattern(l, ia);
@@ -390,7 +431,7 @@ impl Engine for Conv {
     fn rule(&self, prop: &str) -> String {
         match prop {
             "C03" => format!("cases = (x in layout L, y) with y a fixed-point value of another layout (fixed list of {} ordered layout pairs covering all 100 family pairs), a primitive integer (12 types, all 506 layouts), f32/f64 (all 506 layouts) or a value of the same type; y generated relative to x (floor image +- ulps, values in [max_L, 2max_L) / below min_L, the other side's bounds, nearest float and neighbours, float specials). Oracle: exact rational comparison by cross-multiplication in big integers; all six operators + partial_cmp in both operand orders; same type: cmp/max/min/hash. Non-trivial: values differ by less than one ulp of the coarser side, or y outside L's range, or a float special.", PAIRS.len()),
-            "C04" => format!("cases = (source value, destination) over {} ordered layout pairs, 506 layouts x 12 integer types + bool, {} provided From pairs and {} provided LossyFrom pairs (sampled at tight bounds); oracle floor(a*2^(f'-f)) / n*2^f' in exact integers, all five forms through both entry points (to_num/from_num and FromFixed/ToFixed). Non-trivial: non-zero bits discarded, or result not representable, or within 1 of a bound.", PAIRS.len(), FROM_PAIRS.len(), LOSSY_PAIRS.len()),
+            "C04" => format!("cases = (source value, destination) over {} ordered layout pairs, 506 layouts x 12 integer types + bool, {} provided From pairs and {} provided LossyFrom pairs (sampled at tight bounds), plus the provided infallible conversions int->fixed (100), fixed->int From (40) / LossyFrom (225), bool->fixed (30); oracle floor(a*2^(f'-f)) / n*2^f' in exact integers, all five forms through both entry points (to_num/from_num and FromFixed/ToFixed). Non-trivial: non-zero bits discarded, or result not representable, or within 1 of a bound.", PAIRS.len(), FROM_PAIRS.len(), LOSSY_PAIRS.len()),
             "C05" => "cases = (layout, f32|f64 bit pattern) and (layout, fixed value); float patterns: uniform bits, exponent aimed at the layout, constructed ties on the destination grid and float neighbours, around max+1/2ulp / min-1/2ulp, specials (zeros, subnormals, top binade, infinities, NaNs); fixed values with more significant bits than the float's precision, ties on the float grid, all-ones mantissas, f32-subnormal and f32-overflowing results. Oracle: exact RNE of value*2^f in big integers; exact IEEE-754 RNE encoder, compared bit for bit. Non-trivial: rounding discards non-zero bits, or a special class, or within 1 ulp of a bound.".into(),
             _ => String::new(),
         }
@@ -405,8 +446,8 @@ impl Engine for Conv {
     fn required_classes(&self, prop: &str, _tier: Tier) -> Vec<&'static str> {
         match prop {
             "C03" => vec!["rhs-in-[max,2max)", "less-than-one-ulp-apart", "nan", "infinity", "top-binade", "subnormal", "equal", "signed-vs-unsigned"],
-            "C04" => vec!["negative-with-lost-bits", "overflow-high", "overflow-low", "unsigned->signed", "signed->unsigned", "from", "lossy_from", "shift>=64"],
-            "C05" => vec!["tie-to-even-down", "tie-to-even-up", "nan", "infinity", "top-binade", "subnormal-input", "underflow-to-zero", "to-float-inexact", "to-float-tie", "overflow"],
+            "C04" => vec!["negative-with-lost-bits", "overflow-high", "overflow-low", "unsigned->signed", "signed->unsigned", "from", "lossy_from", "shift>=64", "primitive-infallible"],
+            "C05" => vec!["fixed->float-infallible", "tie-to-even-down", "tie-to-even-up", "nan", "infinity", "top-binade", "subnormal-input", "underflow-to-zero", "to-float-inexact", "to-float-tie", "overflow"],
             _ => vec![],
         }
     }
@@ -435,10 +476,30 @@ impl Engine for Conv {
             }
         }
         match op {
-            CONV_FF | CONV_FI | CONV_IF | CONV_BF | FROM_FF | LOSSY_FF => {
-                let src_val = if op == CONV_IF {
+            FLOAT_FROM_FIX => {
+                let (_, fk) = FLOAT_FROM[c.lay2 as usize % FLOAT_FROM.len()];
+                let k = if fk == 0 { FK::F32 } else { FK::F64 };
+                let av = sl.val(a);
+                let want = flt::encode_rne(k, av.is_neg(), &av.abs(), -(sl.f as i64)) as u128;
+                // a lossless From must be exact: converting back gives the same value
+                let exact = match flt::decode(k, want as u64) {
+                    FV::Fin { neg, mant, exp } => flt::cmp_fixed_float(&av, sl.f, neg, mant, exp) == Ordering::Equal,
+                    _ => false,
+                };
+                for (label, got) in &outs {
+                    check(label, got, Exp::Is(Out::V(want)), &mut ev);
+                }
+                if !exact {
+                    ev.fails.push(Fail { label: "float-from-soundness".into(), got: "provided From<fixed> for float is not lossless".into(), want: "exact".into() });
+                }
+                ev.class("from");
+                ev.class("fixed->float-infallible");
+                ev.nontrivial = !av.is_zero();
+            }
+            CONV_FF | CONV_FI | CONV_IF | CONV_BF | FROM_FF | LOSSY_FF | FROM_INT | INT_FROM_FIX | INT_LOSSY_FIX | FROM_BOOL => {
+                let src_val = if op == CONV_IF || op == FROM_INT {
                     sl.val(c.b)
-                } else if op == CONV_BF {
+                } else if op == CONV_BF || op == FROM_BOOL {
                     Big::from_u64((c.b & 1) as u64)
                 } else {
                     sl.val(a)
@@ -449,10 +510,24 @@ impl Engine for Conv {
                 let lost = r.scale_floor(-sh.min(0)) != src_val && sh < 0;
                 for (label, got) in &outs {
                     let exp = match op {
-                        FROM_FF | LOSSY_FF => Exp::Is(Out::V(dl.wrap(&r))),
+                        FROM_FF | LOSSY_FF | FROM_INT | INT_FROM_FIX | INT_LOSSY_FIX | FROM_BOOL => Exp::Is(Out::V(dl.wrap(&r))),
                         _ => form_exp(dl, form_of(label), &r),
                     };
                     check(label, got, exp, &mut ev);
+                }
+                if matches!(op, FROM_INT | INT_FROM_FIX | FROM_BOOL) {
+                    ev.class("from");
+                    ev.class("primitive-infallible");
+                    if lost || !fits {
+                        ev.fails.push(Fail { label: "from-soundness".into(), got: "provided From conversion loses value".into(), want: "value preserved".into() });
+                    }
+                }
+                if op == INT_LOSSY_FIX {
+                    ev.class("lossy_from");
+                    ev.class("primitive-infallible");
+                    if !fits {
+                        ev.fails.push(Fail { label: "lossy-soundness".into(), got: "provided LossyFrom conversion overflows".into(), want: "only fractional bits lost".into() });
+                    }
                 }
                 if op == FROM_FF {
                     ev.class("from");
@@ -487,7 +562,9 @@ impl Engine for Conv {
                     CONV_FF => "fixed->fixed",
                     CONV_FI => "fixed->int",
                     CONV_IF => "int->fixed",
-                    CONV_BF => "bool->fixed",
+                    CONV_BF | FROM_BOOL => "bool->fixed",
+                    FROM_INT => "int->fixed",
+                    INT_FROM_FIX | INT_LOSSY_FIX => "fixed->int",
                     _ => "infallible",
                 });
                 let near = (&r - &dl.hi()).abs() <= Big::one() || (&r - &dl.lo()).abs() <= Big::one();
